@@ -1232,3 +1232,40 @@ Proof.
   - intros n Hn. rewrite firstn_length in Hn. rewrite nth_firstn_lt by lia.
     apply F. lia.
 Qed.
+
+(* ---- later calls: after arbitrary edits of a result the arguments span exactly the same object graph *)
+Definition wf (h : heap) : Prop := forall a, a < length h -> forall b, In b (refs (get h a)) -> b < length h.
+
+Lemma reachable_same h h' roots :
+  (forall a, a < length h -> get h' a = get h a) -> length h <= length h' -> wf h ->
+  (forall r, In r roots -> r < length h) ->
+  forall a, reachable h' roots a <-> reachable h roots a.
+Proof.
+  intros F L W V a. split; intros R.
+  - induction R as [a Ia La | a b Ra IH Ib Lb].
+    + apply reach_root; auto.
+    + pose proof (reachable_lt _ _ _ IH) as La. rewrite F in Ib by auto.
+      eapply reach_step; eauto.
+  - induction R as [a Ia La | a b Ra IH Ib Lb].
+    + apply reach_root; auto. lia.
+    + pose proof (reachable_lt _ _ _ Ra) as La. eapply reach_step; [exact IH| |lia].
+      rewrite F by auto. exact Ib.
+Qed.
+
+Lemma apply_edits_length : forall es h, length (apply_edits h es) = length h.
+Proof.
+  induction es as [|e r IH]; intros h; simpl; [reflexivity|]. unfold apply_edits in *. simpl. rewrite IH. apply upd_length.
+Qed.
+
+Lemma later_call_same_arguments h cl : in_place cl = false -> wf h -> (forall r, In r (args_of cl) -> r < length h) ->
+  forall es, (forall e, In e es -> reachable (fst (run Repaired cl h)) (snd (run Repaired cl h)) (fst e)) ->
+  let h2 := apply_edits (fst (run Repaired cl h)) es in
+  (forall a, reachable h2 (args_of cl) a <-> reachable h (args_of cl) a) /\
+  (forall a, reachable h (args_of cl) a -> get h2 a = get h a).
+Proof.
+  intros NI W V es H h2.
+  assert (F : forall a, a < length h -> get h2 a = get h a) by (intros; now apply edits_leave_old).
+  split.
+  - apply reachable_same; auto. unfold h2. rewrite apply_edits_length. apply frame_noninplace; auto.
+  - intros a R. apply F. eapply reachable_lt; eauto.
+Qed.
